@@ -103,7 +103,7 @@ pub fn run(ctx: &mut Ctx) {
     headers(ctx);
     // emit side: every (level, strategy, wb) header + trailer via the streaming compressor
     let mut k = 0;
-    for level in 0..=10u8 { for strategy in 0..5u8 { for wb in [8u8, 9, 11, 12, 14, 15] {
+    for level in 0..=10u8 { for strategy in 0..5u8 { for wb in [8u8, 9, 11, 12, 14, 15, 16, 17, 23, 24, 31, 200] {
         k += 1;
         if ctx.quick() && k % 3 != (ctx.seed % 3) as usize { continue; }
         let cfg = Cfg { level, strategy, zlib: true, wb };
